@@ -910,7 +910,7 @@ func Run(c *core.Ctx, replay string) (*core.Result, error) {
 		}
 	}
 	if replay == "" && ran > 0 {
-		for _, need := range []string{"insert: insert ok", "insert: insert refused", "update: update ok", "update: update refused", "delete: delete ok", "delete: delete refused", "unlink: delete ok"} {
+		for _, need := range []string{"insert: insert ok", "insert: insert refused", "update: update ok", "update: update refused", "delete: delete ok", "delete: delete refused", "unlink: delete ok", "delkey: delete ok"} {
 			if stepKinds[need] == 0 {
 				return nil, core.Inconcl("replayed behaviours never contain a step %q", need)
 			}
